@@ -23,6 +23,9 @@ import traceback
 from collections import Counter
 
 VERIF = os.path.abspath(os.path.join(os.path.dirname(__file__), ".."))
+# development only: redirect evidence and found-replays (mutation runs must not
+# overwrite the evidence of the unchanged tree)
+OUT = os.path.abspath(os.environ.get("VERIF_OUT") or VERIF)
 
 
 # --------------------------------------------------------------------------
@@ -388,7 +391,7 @@ def _evidence(mod, tier, seed, merged, wall, nviol, extra):
 
 
 def write_replay(prop_id, viol, found):
-    d = os.path.join(VERIF, "replays", prop_id)
+    d = os.path.join(OUT, "replays", prop_id)
     os.makedirs(d, exist_ok=True)
     h = "%016x" % spec_hash([viol["tag"], viol["spec"]])
     path = os.path.join(d, "found-%s.json" % h)
@@ -559,8 +562,8 @@ def main(argv=None):
     if len(merged["nontrivial"]) and not merged["samples"]:
         merged["samples"] = [{"note": "no sample retained"}]
     ev = _evidence(mod, args.tier, seed, merged, wall, len(bytag), extra)
-    os.makedirs(os.path.join(VERIF, "evidence"), exist_ok=True)
-    evpath = os.path.join(VERIF, "evidence", "%s.json" % prop_id)
+    os.makedirs(os.path.join(OUT, "evidence"), exist_ok=True)
+    evpath = os.path.join(OUT, "evidence", "%s.json" % prop_id)
     with open(evpath + ".part", "w") as fh:
         json.dump(ev, fh, indent=1, default=str)
     os.replace(evpath + ".part", evpath)
